@@ -110,7 +110,9 @@ BAD = {
     "DistLogNormal": [[0, 0], [0, -1], ["m", 1]],
     "DistNegBinomial": [[0, 0.5], [-2, 0.5], [3, -0.1], [3, 1.1], [2.5, 0.5]],
     "DistNormal": [[0, 0], [0, -1], ["m", 1], [0, "s"]],
-    "DistNormalTrunc": [[0, 0, -1, 1], [0, 1, 1, 1], [0, 1, 2, 1], [0, 1, 8, 9], [0, 1, -40, -30], [0, 1, "a", 1]],
+    "DistNormalTrunc": [[0, 0, -1, 1], [0, 1, 1, 1], [0, 1, 2, 1], [0, 1, 8, 9], [0, 1, -40, -30], [0, 1, "a", 1],
+                        # intervals whose probability lies just below the documented 1e-6 (3e-7, 2e-8, 2e-8)
+                        [0, 1, 5, 6], [0, 1, -6, -5.5], [10, 2, 21, 30]],
     "DistPearson5": [[0, 1], [1, 0], [-1, 1], ["a", 1]],
     "DistPearson6": [[0, 1, 1], [1, 0, 1], [1, 1, 0], [1, 1, -1]],
     "DistPoisson": [[0], [-1.0], ["r"]],
